@@ -13,12 +13,21 @@ open KlogV.Go
 /-! ## C16: adding a duration to a time; ranges -/
 
 /-- C16: "Adding a duration to a time gives the time that many minutes later when that lies between the start of the
-previous and the end of the next day and an error otherwise" — about `(*time).Plus` of the Go source. -/
+previous and the end of the next day and an error otherwise" — about `(*time).Plus` of the Go source; beyond the 64-bit
+range of the checked addition the refusal is a panic. -/
 theorem go_time_plus (t : GoSrc.time) (d : GoSrc.duration) (ht : GoTimeWF t) (hd : inRange d.minutes = true) :
     ((-1440 ≤ goTimeOffset t + d.minutes ∧ goTimeOffset t + d.minutes < 2880) →
         ∃ r, t.Plus d = .ok r ∧ GoTimeWF r ∧ goTimeOffset r = goTimeOffset t + d.minutes ∧ r.format = t.format) ∧
-    (¬ (-1440 ≤ goTimeOffset t + d.minutes ∧ goTimeOffset t + d.minutes < 2880) → (t.Plus d).res = .err) :=
+    (¬ (-1440 ≤ goTimeOffset t + d.minutes ∧ goTimeOffset t + d.minutes < 2880) →
+        inRange (goTimeOffset t + d.minutes) = true → (t.Plus d).res = .err) ∧
+    (inRange (goTimeOffset t + d.minutes) = false → (t.Plus d).res = .panic) :=
   GoL.go_time_plus t d ht hd
+
+/-- (As first written the statement promised an error for EVERY sum outside the window; the proof attempt returned the
+counterexample `0:01` plus 2⁶³−1 minutes: the checked addition panics before the window is tested — findings D1/D12 seen
+from another side.) -/
+example : GoTimeWF ⟨0, 1, 0, ⟨true⟩⟩ ∧ inRange (9223372036854775807 : Int) = true ∧
+    ((⟨0, 1, 0, ⟨true⟩⟩ : GoSrc.time).Plus ⟨9223372036854775807, ⟨false, 0⟩⟩).res = .panic := by decide
 
 /-- C16: "a range is valid exactly when its end is not before its start and lasts end − start minutes" — about
 `NewRangeWithFormat` and `(*timeRange).Duration` of the Go source. -/
